@@ -333,6 +333,39 @@ class Check(Property):
                     inpl = out(lambda: iop(f.Quantity(Fraction(20), ua), f.Quantity(Fraction(10), ub)))
                     if plain != inpl:
                         v.append(f"C03 20 {ua} {name} 10 {ub}: the plain form gives {plain}, the in-place form {inpl}")
+        # (5) bare numbers with scaled dimensionless quantities (percent, ppm, mm/m): every in-place form agrees with its plain form
+        # (the quantity is read as the pure number it is), for scalar and array magnitudes
+        fl = regs.ureg("float")
+        for un, mag in (("percent", 250.0), ("ppm", 3.0e6), ("millimeter / meter", 2500.0), ("percent", [250.0, 50.0]), ("dimensionless", 2.5)):
+            for name, op, iop in (("//", operator.floordiv, operator.ifloordiv), ("%", operator.mod, operator.imod), ("+", operator.add, operator.iadd),
+                                  ("-", operator.sub, operator.isub), ("*", operator.mul, operator.imul), ("/", operator.truediv, operator.itruediv)):
+                for num in (2, 0.75):
+                    def mk():
+                        return fl.Quantity(np.array(mag) if isinstance(mag, list) else mag, un)
+
+                    def out2(fn):
+                        try:
+                            q = fn().to_root_units()
+                            return ("ok", np.round(np.asarray(q.magnitude, dtype=float), 9).tolist(), str(q.units))
+                        except Exception as exc:  # noqa: BLE001
+                            return ("err", type(exc).__name__)
+                    plain, inpl = out2(lambda: op(mk(), num)), out2(lambda: iop(mk(), num))
+                    if plain != inpl:
+                        v.append(f"C03 {mag} {un} {name} {num}: the plain form gives {plain}, the in-place form {inpl}")
+        # (6) ordering a dimensionless quantity on a logarithmic scale against a bare number: as for the same pure number written
+        # without a unit (a result, never an error the plain number does not give)
+        for db, pure in ((-3.0, 10 ** -0.3), (0.0, 1.0), (10.0, 10.0)):
+            for num in (0, 0.0, 0.5, 1, 20.0, float("nan")):
+                for name, op in (("<", operator.lt), ("<=", operator.le), (">", operator.gt), (">=", operator.ge)):
+                    def out3(fn):
+                        try:
+                            return ("ok", bool(fn()))
+                        except Exception as exc:  # noqa: BLE001
+                            return ("err", type(exc).__name__)
+                    a_, b_ = out3(lambda: op(fl.Quantity(db, "decibel"), num)), out3(lambda: op(fl.Quantity(pure, ""), num))
+                    r_, s_ = out3(lambda: op(num, fl.Quantity(db, "decibel"))), out3(lambda: op(num, fl.Quantity(pure, "")))
+                    if a_ != b_ or r_ != s_:
+                        v.append(f"C03 {db} dB {name} {num}: {a_} / reflected {r_}; the same number without a unit ({pure:.4g}): {b_} / {s_}")
         return v[:12]
 
     def oracle(self, c):
